@@ -228,6 +228,22 @@ func TestC02(t *testing.T) {
 		msgs := make([]*builtMsg, n)
 		for j := range msgs {
 			msgs[j] = genMessage(rng, false, rng.IntN(20) == 0)
+			if j > 0 && rng.IntN(4) == 0 {
+				// built as a clone of an earlier message, then both are appended to: what one
+				// message carries must not leak into its neighbour
+				src := msgs[rng.IntN(j)]
+				c := &builtMsg{Msg: src.Msg.Clone(), Model: src.Model.Clone(), Ops: append(append([]string(nil), src.Ops...), "Clone()")}
+				for k, who := range []*builtMsg{c, src, c} {
+					if rng.IntN(3) == 0 {
+						continue
+					}
+					d := "after-clone-" + string(rune('a'+k))
+					who.Msg.AppendData(d)
+					who.Model.Append(false, d)
+					who.Ops = append(who.Ops, "AppendData("+d+")")
+				}
+				msgs[j] = c
+			}
 		}
 		c02Sequence(r, key, msgs)
 	}
